@@ -162,7 +162,9 @@ let run_line lineno line =
     let planes = List.init np (fun _ -> Model.plane_default) in
     let c = { Model.cplanes = planes; Model.cverts = vs; Model.ccycle = Model.cyc_new (nat_of_int np) } in
     let fs = Model.faces_of c in
-    Printf.printf "%d [%s]\n" lineno
+    (* hypothesis of C15_face_walk_closes_up on these duals *)
+    let surf = Model.surfaceb (List.map (fun v -> v.Model.vd) vs) in
+    Printf.printf "%d {\"surface\":%b,\"faces\":[%s]}\n" lineno surf
       (join (fun (p, o) -> Printf.sprintf "[%d,%s]" (int_of_nat p)
                 (match o with Some l -> "[" ^ join (fun i -> string_of_int (int_of_nat i)) l ^ "]" | None -> "null")) fs)
   | "clipcomb" :: np :: pidx :: nv :: rest ->
